@@ -1194,6 +1194,7 @@ package gkvlite
 //@   ensures [C01,C17] rejected-items-change-nothing: t.store.readOnly || item.Key == nil || len(item.Key) > 65535 || len(item.Key) == 0 || item.Val == nil || item.Priority < 0 ==> err != nil && t.root == old(t.root) && tvs == old(tvs) && ias == old(ias) && rootNodeLoc.refs == old(rootNodeLoc.refs) && rootNodeLoc.root == old(rootNodeLoc.root) && net == old(net)
 //@   ensures [C01,C11] stored: err == nil ==> bst(tvs[t.root.root]) && (forall k {mem(k, tvs[t.root.root])} {mem(k, old(tvs)[old(t.root.root)])} :: mem(k, tvs[t.root.root]) == (mem(k, old(tvs)[old(t.root.root)]) || k == ord(item.Key))) && itemAt(ord(item.Key), tvs[t.root.root]) == ia(item) && (forall k {itemAt(k, tvs[t.root.root])} :: k != ord(item.Key) && mem(k, old(tvs)[old(t.root.root)]) ==> itemAt(k, tvs[t.root.root]) == itemAt(k, old(tvs)[old(t.root.root)]))
 //@   ensures [C13] heap-order-kept: err == nil && hp(old(tvs)[old(t.root.root)]) && (mem(ord(item.Key), old(tvs)[old(t.root.root)]) ==> ipri(itemAt(ord(item.Key), old(tvs)[old(t.root.root)])) <= item.Priority) ==> hp(tvs[t.root.root])
+//@   ensures [C04,C10] a-version-still-held-elsewhere-keeps-its-contents: err == nil && t.root != old(t.root) && old(t.root.refs) >= 2 ==> old(t.root).refs == old(t.root.refs) - 1 && old(t.root).root == old(t.root.root) && tvs[old(t.root.root)] == old(tvs)[old(t.root.root)] && (forall x {tvs[x]} :: !fresh(x) && x != nil ==> tvs[x] == old(tvs)[x] || isLeaf(tvs[x]))
 //@   ensures [C04,C13] new-version-is-well-formed: err == nil ==> t.root != nil && t.root.refs >= 1 && t.root.root != nil && t.root.next == nil && t.root.chainedCollection == nil && t.root.chainedRootNodeLoc == nil
 //@   ensures [C07] failed-call-changes-nothing: err != nil ==> t.root == old(t.root) && t.root.refs == old(t.root.refs) && t.root.root == old(t.root.root) && tvs[t.root.root] == old(tvs)[old(t.root.root)]
 //@   ensures [C07,C10] failed-call-leaves-no-marks: err != nil ==> forall m {node.next[m]} :: !fresh(m) ==> node.next[m] == old(node.next[m])
@@ -1228,6 +1229,7 @@ package gkvlite
 //@   ensures [C01] reports-presence: err == nil ==> wasDeleted == mem(ord(key), old(tvs)[old(t.root.root)])
 //@   ensures [C01] deleted: err == nil ==> bst(tvs[t.root.root]) && (forall k {mem(k, tvs[t.root.root])} {mem(k, old(tvs)[old(t.root.root)])} :: mem(k, tvs[t.root.root]) == (mem(k, old(tvs)[old(t.root.root)]) && k != ord(key))) && (forall k {itemAt(k, tvs[t.root.root])} :: mem(k, tvs[t.root.root]) ==> itemAt(k, tvs[t.root.root]) == itemAt(k, old(tvs)[old(t.root.root)]))
 //@   ensures [C13] heap-order-kept: err == nil && hp(old(tvs)[old(t.root.root)]) ==> hp(tvs[t.root.root])
+//@   ensures [C04,C10] a-version-still-held-elsewhere-keeps-its-contents: err == nil && t.root != old(t.root) && old(t.root.refs) >= 2 ==> old(t.root).refs == old(t.root.refs) - 1 && old(t.root).root == old(t.root.root) && tvs[old(t.root.root)] == old(tvs)[old(t.root.root)] && (forall x {tvs[x]} :: !fresh(x) && x != nil ==> tvs[x] == old(tvs)[x] || isLeaf(tvs[x]))
 //@   ensures [C04,C13] new-version-is-well-formed: err == nil ==> t.root != nil && t.root.refs >= 1 && t.root.root != nil && t.root.next == nil && t.root.chainedCollection == nil && t.root.chainedRootNodeLoc == nil
 //@   ensures [C07] failed-call-changes-nothing: err != nil ==> !wasDeleted && t.root == old(t.root) && t.root.refs == old(t.root.refs) && t.root.root == old(t.root.root) && tvs[t.root.root] == old(tvs)[old(t.root.root)]
 //@   ensures [C07,C10] failed-call-leaves-no-marks: err != nil ==> forall m {node.next[m]} :: !fresh(m) ==> node.next[m] == old(node.next[m])
